@@ -7,9 +7,9 @@ from vlib.core import Check, Family
 # `|dx| < 1e-4` on computed values, and the loop stops as soon as |dx| < 1e-4 (after ≤ 20 of the 40 iterations), so a decision
 # flipped by a 1-ulp libm difference changes wetBulb/deltaT by up to the last bracket width, ≤ 1e-4 °C — far above any
 # tolerance that would still be a meaningful comparison. Instead of loosening the tolerance, the generator (models_climate.go)
-# rejects samples that come within 1e-9 (relative) of such a decision boundary (probability ≈ 1e-8 per sample; rejected samples
-# are counted in the evidence histogram as `C20:near-tie-rejected-by-generator`); for every emitted sample both sides take
-# the same branches and the wet-bulb outputs then differ only by the smooth libm error.
+# rejects samples that come within 1e-12 (relative; 1000× the libm disagreement) of such a decision boundary (≈ 3e-7 of the
+# samples; counted in the evidence histogram as `C20:near-tie-rejected-by-generator`); for every emitted sample both sides
+# take the same branches and the wet-bulb outputs then differ only by the smooth libm error.
 CHECK = Check(
     "C20",
     props_modules=["OW.Props.C20"],
@@ -55,3 +55,4 @@ META = dict(
          "Not proved: monotonicity across 0 °C, bisection convergence, IEEE finiteness (all three sampled by the oracle).",
     technique="Lean 4 proof (induction on bisection steps; rpow/log monotonicity) + differential correspondence model vs real code",
 )
+READY = True
